@@ -85,7 +85,10 @@ class C16(Prop):
                 "takeAxisPosDs_attrs", "takeAxisPosDs_axis_attrs", "sortAxisDs_axis_attrs", "reindexAxisDs_axis_attrs", "takeDs_attrs",
                 "unaryOp_attrs", "unaryOp_axis_attrs", "unaryOp_attrs_counterexample", "reduceX_attrs", "reduceX_axis_attrs",
                 "sortAxisKey_attrs", "sortAxisKey_axis_attrs", "takeAxisInts_attrs", "takeAxisInts_axis_attrs",
-                "compressNd_attrs", "compressNd_axis_attrs", "unaryOpDs_attrs", "rbinaryOpDs_attrs", "takeAxisIntsDs_attrs"]
+                "compressNd_attrs", "compressNd_axis_attrs", "unaryOpDs_attrs", "rbinaryOpDs_attrs", "takeAxisIntsDs_attrs",
+                "stackDsA_attrs", "stackDsA_axis_attrs", "concatenateDsA_attrs", "concatenateDsA_axis_attrs", "reduceAllDs_attrs",
+                "reduceDs_attrs", "binaryOpDs_attrs", "binaryOpDs_axis_attrs", "stackDs_attrs", "stackDs_axis_attrs",
+                "concatenateDs_attrs", "concatenateDs_axis_attrs", "reindexLikeDs_attrs", "copyDs_attrs"]
     rule = ("routing: the complete table class {DimArray, Dataset, Axis} x name class {public, underscore, read-only member, "
             "settable member, method, dimension name / excluded name} x {stored in attrs, absent} x {get, set, del} is "
             "tabulated from the implementation on every run (126 rows) and proved by `decide`; propagation: every operation "
@@ -106,10 +109,11 @@ class C16(Prop):
                    "broadcast (pointwise) indexing take(..., broadcast=True) [fn take_broadcast], the attrs property setter / deleter "
                    "[op attrs_prop], Axis objects sliced directly with ndarray / boolean keys [ax_ndarray, ax_bool: only Axis.__getitem__ on "
                    "positions is mirrored, as axisSelect]",
-                   "mirror functions that return an array / Dataset and still have NO kept / dropped theorem pair (sweep only): stackDsA, "
-                   "concatenateDsA, reindexAxisDsM, reduceAllDs, readFile, readMulti, DatasetCtor.construct (a state machine over axis "
-                   "identities: it carries no metadata field), and the older binaryOpDs, stackDs, concatenateDs, reduceDs, reindexLikeDs, "
-                   "copyDs, interpAxisDs, interpLike, interpLikeDs"]
+                   "mirror functions that return an array / Dataset and still have NO kept / dropped theorem pair (sweep only): "
+                   "reindexAxisDsM, readFile, readMulti, DatasetCtor.construct (a state machine over axis identities: it carries no "
+                   "metadata field), interpAxisDs, interpLike, interpLikeDs; attrs half only (no axis half): stackDsA / concatenateDsA with "
+                   "align=True (the axes of the aligned Datasets are not traced back to the inputs), reduceAllDs, reduceDs, reindexLikeDs, "
+                   "copyDs, unaryOpDs, rbinaryOpDs"]
 
     def mirrors(self):
         from dimarray.core import bases, dimarraycls
